@@ -59,7 +59,8 @@ HEALTHY = [("recv_body",), ("gate", "gb"), ("send", {"type": "http.response.star
                                                      "headers": [(b"content-length", b"2")]}),
            ("send", {"type": "http.response.body", "body": b"ok", "more_body": False})]
 HEALTHY_NOGATE = [op for op in HEALTHY if op[0] != "gate"]
-KINDS = ["raise", "return", "cancel"]
+KINDS = ["raise", "return", "cancel", "raise_group", "badstart"]
+BAD_START = {"type": "http.response.start", "status": 200, "headers": [(b"x-bad", b"a\r\nset-cookie: b")]}
 CONTEXTS = ["h1_seq", "h1_pipe", "h2", "ws/h1", "ws/h2"]
 
 
@@ -71,7 +72,12 @@ def failing(base: list, k: int, kind: str, framing: str) -> list:
             op = ("send", {"type": "http.response.start", "status": 200, "headers": hdrs})
         prog.append(op)
     if k < len(base):
-        prog.append((kind,))
+        if kind == "badstart":
+            # the failure *is* the response start: an invalid header makes send() raise into an application
+            # that does not catch it
+            prog.append(("send_strict", BAD_START))
+        else:
+            prog.append((kind,))
     return prog
 
 
@@ -86,6 +92,10 @@ def scenarios(tier: str) -> List[Any]:
                         if kind == "cancel" and engine == "trio":
                             continue  # raising trio.Cancelled by hand is not something an application can do
                         if k == len(base) and kind != "raise":
+                            continue
+                        if kind == "badstart" and (ctx.startswith("ws") or k != 2):
+                            continue
+                        if kind == "raise_group" and k not in (0, 2, 3):
                             continue
                         out.append((engine, ctx, framing, k, kind))
     return out
@@ -146,7 +156,7 @@ def oracle(w: Any, params: Any) -> List[dict]:
     inst_a = next((i for i in w.instances if i.scope.get("path") == "/a"), None)
     if inst_a is None:
         return internal_errors(w)
-    crashed = inst_a.outcome in ("raised:AppCrash", "returned", "cancelled") and k < len(base)
+    crashed = (inst_a.outcome in ("raised:AppCrash", "returned", "cancelled") or (inst_a.outcome or "").startswith("raised:")) and k < len(base)
     # what the app managed to send before failing
     sent = [s for s in inst_a.sends if s[3] == "ok"]
     started = any(s[2]["type"] in ("http.response.start", "websocket.accept") for s in sent)
@@ -207,8 +217,8 @@ def oracle(w: Any, params: Any) -> List[dict]:
                 if code is None and not dropped:
                     out.append(V("not-terminated", f"{ctx}:{kind}:ws-left-open", f"{tag}: no close frame, stream/connection still open"))
     # --- logging
-    if kind == "raise" and inst_a.outcome == "raised:AppCrash" and k < len(base):
-        n = sum(1 for l in w.logrec if l[1] == "exception" and l[3] == "AppCrash")
+    if kind in ("raise", "raise_group") and inst_a.outcome == "raised:AppCrash" and k < len(base):
+        n = sum(1 for l in w.logrec if l[1] == "exception" and l[2] == "Error in ASGI Framework")
         if n != 1:
             out.append(V("not-logged", f"{ctx}:{n}", f"{tag}: {n} exception records: {w.logrec}"))
     # --- containment
